@@ -521,6 +521,55 @@ func registerStringIntercepts() {
 			}
 			return tuple{out[0], normRope(i.W, rest), true}, true
 		}),
+		"strings.Trim": sym2(func(i *interpreter, a []value) (value, bool) {
+			parts, _ := ropeOf(a[0])
+			cut, ok := a[1].(string)
+			if !ok {
+				panic(unmodelled{"strings.Trim with symbolic cutset"})
+			}
+			np := append([]ropePart{}, parts...)
+			atomStops := func(p ropePart) bool {
+				if p.kind != rkAtom || p.minLen < 1 {
+					return false
+				}
+				for k := 0; k < len(cut); k++ {
+					if strings.IndexByte(p.forbid, cut[k]) < 0 {
+						return false
+					}
+				}
+				return true
+			}
+			for len(np) > 0 {
+				if np[0].kind == rkLit {
+					np[0].lit = strings.TrimLeft(np[0].lit, cut)
+					if np[0].lit == "" {
+						np = np[1:]
+						continue
+					}
+					break
+				}
+				if atomStops(np[0]) {
+					break
+				}
+				panic(unmodelled{"strings.Trim reaching an atom that may be empty or contain cutset bytes"})
+			}
+			for len(np) > 0 {
+				l := len(np) - 1
+				if np[l].kind == rkLit {
+					np[l].lit = strings.TrimRight(np[l].lit, cut)
+					if np[l].lit == "" {
+						np = np[:l]
+						continue
+					}
+					break
+				}
+				if atomStops(np[l]) {
+					break
+				}
+				panic(unmodelled{"strings.Trim reaching an atom that may be empty or contain cutset bytes"})
+			}
+			return normRope(i.W, np), true
+		}),
 		"strings.HasPrefix": sym2(func(i *interpreter, a []value) (value, bool) {
 			x, _ := strTermOf(a[0])
 			y, _ := strTermOf(a[1])
